@@ -247,7 +247,7 @@ func checkC03(r *Report) {
 	p := loadResolve("", false)
 	pk := p.pkg("semver")
 	tableTrusted(r)
-	r.Explain = "A requirement the reference tool accepts is rejected outright if its operator is missing from the per-system operator table or mapped to the wrong token kind, or if the parser has no desugaring for that kind. Decided: TABLE/ORACLE on semver.operators for npm, Cargo, PyPI, RubyGems, Maven and NuGet (operator set ⊇ the ecosystem's, with the kind the desugaring expects: '~>' is tilde for npm and the pessimistic operator for RubyGems, '~=' the compatible-release operator for PyPI); OP-BYTES: every byte of every operator is classified as an operator byte by byteType (hyphen excepted, handled by the grammar); TABLE/EXHAUSTIVE: every token kind that occurs as a value in the table is accepted by constraintParser.value and has a case in opVersionToSpan (the != special case is recognised). This is necessary, not sufficient: span arithmetic and prerelease admission are not decided."
+	r.Explain = "C03/RECYCLE-COMPLETE: a function of package semver that builds a fresh bound by overwriting the *Version it was given (MinVersion, the lower bound of every '<V' span) stores, on every path to the return of that argument, each Version field that comparison and span matching read (all but sys): a field left over from the user's bound would make the synthetic bound behave like the user's. A requirement the reference tool accepts is rejected outright if its operator is missing from the per-system operator table or mapped to the wrong token kind, or if the parser has no desugaring for that kind. Decided: TABLE/ORACLE on semver.operators for npm, Cargo, PyPI, RubyGems, Maven and NuGet (operator set ⊇ the ecosystem's, with the kind the desugaring expects: '~>' is tilde for npm and the pessimistic operator for RubyGems, '~=' the compatible-release operator for PyPI); OP-BYTES: every byte of every operator is classified as an operator byte by byteType (hyphen excepted, handled by the grammar); TABLE/EXHAUSTIVE: every token kind that occurs as a value in the table is accepted by constraintParser.value and has a case in opVersionToSpan (the != special case is recognised). This is necessary, not sufficient: span arithmetic and prerelease admission are not decided."
 	r.Assume = []string{"operator sets: node-semver README 'Ranges'; Cargo reference 'Specifying dependencies'; PEP 440 'Version specifiers' (=== is outside the property's domain); RubyGems Gem::Requirement::OPS; Maven/NuGet range syntax uses only ',' plus brackets"}
 	init := pkgVarInit(pk, "operators")
 	cl, ok := init.(*ast.CompositeLit)
@@ -409,6 +409,7 @@ func checkC03(r *Report) {
 		}
 	}
 	r.floor("C03/EXHAUSTIVE", "unary operator token kinds in the table", len(unary), 9)
+	recycleCompleteRule(r, loadResolve("", true), "C03/RECYCLE-COMPLETE")
 }
 
 // ---------------------------------------------------------------- C16 ----
